@@ -1,0 +1,139 @@
+//go:build verif
+// +build verif
+
+package raft
+
+import (
+	"fmt"
+
+	pb "github.com/youzan/ZanRedisDB/raft/raftpb"
+)
+
+// Verification hook (build tag verif only; add-only). Extra read-only views of a node
+// for the schedule-owning simulator in /verif/harness/lib/raftsim. Nothing here is
+// used by an oracle's verdict except as a cross-check; the generators use it to steer
+// (e.g. prefer candidates whose last log term is highest).
+
+// VerifLogPeekState is a copy of log/timer state of a node driven by one goroutine.
+type VerifLogPeekState struct {
+	LastTerm                  uint64
+	UnstableOffset            uint64
+	UnstableLen               int
+	HasUnstableSnap           bool
+	ElectionElapsed           int
+	RandomizedElectionTimeout int
+	LeadTransferee            uint64
+	Quorum                    int
+}
+
+// VerifLogPeek reads log/timer state; it recovers from storage errors (returns zero LastTerm).
+func VerifLogPeek(n Node) (st VerifLogPeekState) {
+	nd := n.(*node)
+	r := nd.r
+	st.UnstableOffset = r.raftLog.unstable.offset
+	st.UnstableLen = len(r.raftLog.unstable.entries)
+	st.HasUnstableSnap = r.raftLog.unstable.snapshot != nil
+	st.ElectionElapsed = r.electionElapsed
+	st.RandomizedElectionTimeout = r.randomizedElectionTimeout
+	st.LeadTransferee = r.leadTransferee
+	st.Quorum = r.quorum()
+	defer func() { recover() }()
+	if t, err := r.raftLog.term(r.raftLog.lastIndex()); err == nil {
+		st.LastTerm = t
+	}
+	return st
+}
+
+// VerifProgressState reports the replication state the node keeps for peer id
+// ("" if it tracks none): ProgressStateProbe / Replicate / Snapshot.
+func VerifProgressState(n Node, id uint64) (state string, match, next uint64, paused, recentActive bool) {
+	nd := n.(*node)
+	pr := nd.r.getProgress(id)
+	if pr == nil {
+		return "", 0, 0, false, false
+	}
+	return pr.State.String(), pr.Match, pr.Next, pr.IsPaused(), pr.RecentActive
+}
+
+// The three functions below are StartNode, RestartNode and newNode with one difference:
+// the receive and proposal queues hold recvLen / propLen slots instead of 16384 / 4096.
+// newNode allocates (and zeroes) 2*16384 messages + 2*4096 proposals, about 14 MB per
+// node object, which dominates the cost of a simulated crash/restart, while the
+// simulator never has more than a few dozen messages queued between two StepNode
+// calls. The simulator builds a share of its cases with the real constructors and
+// compares both kinds at start-up (raftsim self-test), so a change to StartNode /
+// RestartNode that is not mirrored here is noticed.
+
+func verifNewNode(recvLen, propLen uint64) node {
+	return node{
+		propQ:         NewProposalQueue(propLen, 1),
+		msgQ:          NewMessageQueue(recvLen, false, 1),
+		confc:         make(chan pb.ConfChange, 1),
+		confstatec:    make(chan pb.ConfState, 1),
+		tickc:         make(chan struct{}, 128),
+		done:          make(chan struct{}),
+		stop:          make(chan struct{}),
+		status:        make(chan chan Status, 1),
+		eventNotifyCh: make(chan bool, 1),
+		newReadyFunc:  newReady,
+	}
+}
+
+// VerifStartNode is StartNode with small queues.
+func VerifStartNode(c *Config, peers []Peer, isLearner bool, recvLen, propLen uint64) Node {
+	if isLearner {
+		c.learners = append(c.learners, c.Group)
+	}
+	r := newRaft(c)
+	r.becomeFollower(1, None)
+	for _, peer := range peers {
+		cc := pb.ConfChange{Type: pb.ConfChangeAddNode, ReplicaID: peer.ReplicaID,
+			NodeGroup: pb.Group{NodeId: peer.NodeID, Name: r.group.Name, GroupId: r.group.GroupId,
+				RaftReplicaId: peer.ReplicaID},
+			Context: peer.Context}
+		d, err := cc.Marshal()
+		if err != nil {
+			panic("unexpected marshal error")
+		}
+		e := pb.Entry{Type: pb.EntryConfChange, Term: 1, Index: r.raftLog.lastIndex() + 1, Data: d}
+		r.raftLog.append(e)
+	}
+	r.raftLog.committed = r.raftLog.lastIndex()
+	for _, peer := range peers {
+		r.addNode(peer.ReplicaID, pb.Group{NodeId: peer.NodeID, Name: r.group.Name, GroupId: r.group.GroupId,
+			RaftReplicaId: peer.ReplicaID})
+	}
+
+	n := verifNewNode(recvLen, propLen)
+	n.logger = c.Logger
+	n.r = r
+	n.prevS = newPrevState(r)
+	off := max(r.raftLog.applied+1, r.raftLog.firstIndex())
+	n.lastSteppedIndex = off
+	n.NotifyEventCh()
+	return &n
+}
+
+// VerifRestartNode is RestartNode with small queues.
+func VerifRestartNode(c *Config, recvLen, propLen uint64) Node {
+	r := newRaft(c)
+
+	n := verifNewNode(recvLen, propLen)
+	n.logger = c.Logger
+	n.r = r
+	n.prevS = newPrevState(r)
+	off := max(r.raftLog.applied+1, r.raftLog.firstIndex())
+	n.lastSteppedIndex = off
+	n.NotifyEventCh()
+	return &n
+}
+
+// VerifNodeShape describes the parts of a node object that the constructors set, so
+// that a node from the real constructor and one from the mirror can be compared.
+func VerifNodeShape(n Node) string {
+	nd := n.(*node)
+	return fmt.Sprintf("confc=%d confstatec=%d tickc=%d status=%d event=%d/%d needAdvance=%v lastStepped=%d prevSoft=%+v prevHard=%+v prevLead=%d newReady=%v logger=%v term=%d vote=%d commit=%d applied=%d last=%d state=%v lead=%d learner=%v prs=%d learnerPrs=%d pendingConf=%v",
+		cap(nd.confc), cap(nd.confstatec), cap(nd.tickc), cap(nd.status), len(nd.eventNotifyCh), cap(nd.eventNotifyCh), nd.needAdvance, nd.lastSteppedIndex,
+		*nd.prevS.prevSoftSt, nd.prevS.prevHardSt, nd.prevS.prevLead, nd.newReadyFunc != nil, nd.logger != nil,
+		nd.r.Term, nd.r.Vote, nd.r.raftLog.committed, nd.r.raftLog.applied, nd.r.raftLog.lastIndex(), nd.r.state, nd.r.lead, nd.r.isLearner, len(nd.r.prs), len(nd.r.learnerPrs), nd.r.pendingConf)
+}
